@@ -21,7 +21,7 @@ NS = "{" + schemas.AAS_NS + "}"
 BCP47_SDK = ["en", "de", "en-US", "zh-Hant-TW", "fr-CA", "de-CH-1996", "sr-Latn-RS", "es-419", "de-DE-x-private"]
 # further shapes of BCP 47 (all accepted by the schemas' pattern): 3-letter primary, upper case, private use,
 # grandfathered, extended language subtags, extensions, 4-8 letter primary
-BCP47_MORE = ["deu", "EN", "x-private", "i-klingon", "zh-cmn-Hans-CN", "en-a-bbb-x-a-ccc", "qaa-Qaaa-QM-x-southern",
+BCP47_MORE = ["deu", "EN", "x-private", "i-klingon", "zh-aaa-bbb-ccc", "en-a-bbb-x-a-ccc", "qaa-Qaaa-QM-x-southern",
               "de-1996", "sl-rozaj-biske", "hy-Latn-IT-arevela", "En-Us", "art-lojban", "abcd", "abcdefgh"]
 # quoted parameter values are drawn from upper-case letters, digits and '-': libxml2 (2.14) reads the range `\]-~` of the
 # XSD contentType pattern as the three characters ']', '-', '~', so lxml rejects quoted values with lower-case letters
@@ -425,8 +425,8 @@ LITERAL_STYLES = {  # styles that change the spelling but not the value, per can
 class IndependentWriter:
     """canonical form -> documents.  Driven by: the flattened schema tables (member order, names, nesting, wrapper
     objects / elements, enum literal lists), aasgen.META (attribute kinds) and schemas.MEMBER (attribute -> name).
-    knobs (dict): explicit_defaults (bool), literal_style (tag -> style), shuffle (rng or None), xml_ws (bool),
-    xml_bool_num (bool)."""
+    knobs (dict): explicit_defaults_for ((class, attribute) or None), literal_style (tag -> style), shuffle (rng or None), xml_ws ('xs:boolean' | 'xs:base64Binary'),
+    xml_bool_num (bool), xml_prefix (None = default namespace, or a prefix)."""
 
     def __init__(self, t, knobs=None):
         self.t = t
@@ -461,7 +461,7 @@ class IndependentWriter:
         if v is None or v == []:
             return True
         d = schemas.DEFAULTS.get((cls, attr))
-        if d is not None and d[1] == v and not self.k.get("explicit_defaults"):
+        if d is not None and d[1] == v and self.k.get("explicit_defaults_for") != (cls, attr):
             return True
         return False
 
@@ -560,8 +560,8 @@ class IndependentWriter:
             e.text = text
         return e
 
-    def ws(self, s):
-        return f" {s}\n" if self.k.get("xml_ws") else s
+    def ws(self, s, ty):
+        return f" {s}\n" if self.k.get("xml_ws") == ty else s
 
     def xobj(self, c, group, tag):
         cls = c["_class"]
@@ -603,7 +603,8 @@ class IndependentWriter:
             e = self.E(name)
             for pname, _, _ in self.xc[ty[1]]:
                 on = any(self.enum_literal(x, LEVELS) == pname for x in v)
-                e.append(self.E(pname, ("1" if on else "0") if self.k.get("xml_bool_num") else ("true" if on else "false")))
+                e.append(self.E(pname, self.ws(("1" if on else "0") if self.k.get("xml_bool_num")
+                                               else ("true" if on else "false"), "xs:boolean")))
             return e
         if kind.startswith("oset:") and k == "cls":          # value list
             e = self.E(name)
@@ -641,7 +642,7 @@ class IndependentWriter:
             return self.xobj(v, ty[1], name)
         if k == "bool":
             s = ("1" if v else "0") if self.k.get("xml_bool_num") else ("true" if v else "false")
-            return self.E(name, self.ws(s))
+            return self.E(name, self.ws(s, "xs:boolean"))
         if k == "enum":
             if kind in ("xsdtype", "oxsdtype"):
                 return self.E(name, xsd_name(v))
@@ -649,7 +650,7 @@ class IndependentWriter:
                 return self.E(name, v)
             return self.E(name, self.enum_literal(v, ty[1]))
         if k == "b64":
-            return self.E(name, self.ws(base64.b64encode(bytes.fromhex(v)).decode()))
+            return self.E(name, self.ws(base64.b64encode(bytes.fromhex(v)).decode(), "xs:base64Binary"))
         if k == "str":
             if kind in ("leaf", "odatetime", "oduration"):
                 return self.E(name, self.lit(v))
@@ -659,7 +660,7 @@ class IndependentWriter:
     def xml_env(self, canons):
         rt, rg = self.t["xsd"]["root"]
         from lxml import etree
-        root = etree.Element(NS + rt, nsmap={"aas": schemas.AAS_NS})
+        root = etree.Element(NS + rt, nsmap={self.k.get("xml_prefix", "aas"): schemas.AAS_NS})
         for name, opt, ty in self.xc[rg]:
             mine = [c for c in canons if lower_first(CLASSMAP.get(c["_class"], c["_class"])) == ty[2][1]]
             if mine:
@@ -675,7 +676,7 @@ def norm(c):
     """aasgen.canon output without the Python typing aid ModelReference._type, unordered collections re-sorted
     afterwards (canon sorts them with _type still inside)"""
     import json as _json
-    if isinstance(c, list):
+    if isinstance(c, (list, tuple)):
         return [norm(x) for x in c]
     if not isinstance(c, dict):
         return c
